@@ -595,31 +595,57 @@ class Funnel:
             got = tg.get(b"s%03d" % i, ls if not isinstance(ls, list) else "missing")
             self.add("t2s_retarget", "reject" if m is None else "accept", s, exp, got, got == exp, err)
 
+    def chain_image(self, s):
+        """forged image that really contains the chain of entries a refused path spells ('x', '..', 'y' ...), with the
+        file leak-marker (content 'leaked', xattr user.c18leak) at its end"""
+        chain = [c for c in s.split(b"/") if c not in (b"", b".")]
+        node = sqfs_forge.Node(b"leak-marker", "f", payload=b"leaked\n", xattrs=[(b"user.c18leak", b"leaked-x")])
+        for c in reversed(chain):
+            node = sqfs_forge.Node(c, "d", children=[node])
+        img = self.tmp(".sqfs")
+        img.write_bytes(sqfs_forge.forge(sqfs_forge.Node(b"", "d", children=[node])))
+        return img
+
     def cases_rd_path(self):
         rej = reject_set(self.rng, [b"c18x/y/z", b"c18q"], self.n)
         acc_f = accept_set(self.rng, REF_FILES, self.n // 2 + 2)
         acc_d = accept_set(self.rng, REF_DIRS, self.n // 2 + 2) + [b"/", b".", b"./", b"//."]
         return ([("reject", s) for s in rej] + [("cat", s) for s in acc_f] + [("ls", s) for s in acc_d] +
-                [("reject-op", (op, s)) for op, s in zip(["-c", "-s", "-x", "-u"], rej[:4])])
+                [("reject-op", (op, s + (b"" if op == "-u" else b"/leak-marker"))) for op, s in zip(["-c", "-s", "-x", "-u"] * 2, self.plain_rejects(rej))])
+
+    @staticmethod
+    def plain_rejects(rej):
+        """the refused paths that are spelled without decoration ('x/../y'): looked up component by component they
+        resolve in the forged chain image, so that only the refusal in get_path keeps the marker from being reached.
+        Two rounds over the four operations, '..' in a different position each time."""
+        plain = [s for s in rej if s and all(c not in (b"", b".") for c in s.split(b"/"))]
+        if len(plain) < 4:
+            raise vlib.CheckFailure("C18 funnel: only %d undecorated refused paths for the rdsquashfs reject-op probes" % len(plain))
+        return (plain + plain[::-1])[:8]
 
     def probe_rd_path(self, kind, s):
         """bin/rdsquashfs/src/options.c get_path (-l -c -s -x -u).  A refused path is looked up in a *forged* image
         that really contains that chain of entries ('x', '..', 'y' ...), so that a path which is not refused would
         resolve; stored name = the node that is listed (-l: its children) or printed (-c: its content)."""
         if kind == "reject-op":
+            # -c/-s/-x: <chain>/leak-marker is a file with content 'leaked' and the xattr user.c18leak; -u: the chain
+            # itself.  All of them against the forged image that has these entries (as -l below): a path that is not
+            # refused by get_path resolves, and prints the content / the name / the xattr key.  For -u nothing else is
+            # observable - restore_fstree.c refuses a tree with a '..' node on its own - so the diagnostic must be
+            # about the path argument (a refusal for any other reason names something else)
             op, p = s
+            img = self.chain_image(p[:-len(b"/leak-marker")] if op != "-u" else p)
             jail = self.tmp(".jail")
-            jail.mkdir()
-            rc, out, err = self.run([self.rd, op, p, self.ref_img], cwd=jail)
-            return self.add("rd_path", "reject", p, "refused", "refused" if self.refused(rc) else "rc=%d" % rc, self.refused(rc) and self.model[p] is None, err)
+            (jail / "R").mkdir(parents=True)
+            rc, out, err = self.run([self.rd, op, p, img], cwd=jail / "R")
+            marker = {"-c": b"leaked", "-s": b"leak-marker", "-x": b"c18leak", "-u": b"leak-marker"}[op]
+            tree = sorted(os.listdir(str(jail / "R"))) + sorted(x for x in os.listdir(str(jail)) if x != "R")
+            ok = self.refused(rc) and self.model[p] is None and marker not in out and not tree and (op != "-u" or p in err)
+            got = "refused" if ok else "rc=%d out=%r created=%r err=%r" % (rc, out[:80], tree, err[-120:])
+            return self.add("rd_path", "reject", p, "refused", got, ok, err)
         m = self.model[s]
         if kind == "reject":
-            chain = [c for c in s.split(b"/") if c not in (b"", b".")]
-            node = sqfs_forge.Node(b"leak-marker", "f", payload=b"leaked\n")
-            for c in reversed(chain):
-                node = sqfs_forge.Node(c, "d", children=[node])
-            img = self.tmp(".sqfs")
-            img.write_bytes(sqfs_forge.forge(sqfs_forge.Node(b"", "d", children=[node])))
+            img = self.chain_image(s)
             rc, out, err = self.run([self.rd, "-l", s, img])
             ok = m is None and self.refused(rc) and b"leak-marker" not in out
             return self.add("rd_path", kind, s, "refused", "refused" if self.refused(rc) else "rc=%d out=%r" % (rc, out[:80]), ok, err)
@@ -890,6 +916,10 @@ class Funnel:
             self.probe_t2s_retarget("batch", (inp,))
         elif probe == "rd_path":
             m = self.model[inp]
+            if m is None:
+                # the record does not say which operation refused: re-run every operation that takes this kind of path
+                for op in (["-c", "-s", "-x"] if inp.endswith(b"/leak-marker") else ["-u"]):
+                    self.probe_rd_path("reject-op", (op, inp))
             self.probe_rd_path("reject" if m is None else "cat" if m in REF_FILES else "ls", inp)
         elif probe in self.A_PROBES:
             getattr(self, "probe_" + probe)(kind, inp)
